@@ -295,18 +295,20 @@ inductive RegErr where
   | noKey | badDefault (e : VErr)
   deriving DecidableEq, Repr
 
+/-- The compiled pattern: the explicit `ValidationRegex`, else the one generated from the possible values. -/
+def mkRx (rxi : Nat) (pvs : Option (List PV)) : Rx :=
+  if rxi ≠ 0 then .cat rxi else match pvs with
+    | some l => .alts (l.map PV.fmt)
+    | none => .none
+
 /-- The option as `Register` stores it: pattern generated from the possible values if no explicit one,
     default validated into the fallback layer. -/
 def mkOpt (key : Key) (ty : OptType) (rl : Nat) (rxi : Nat) (pvs : Option (List PV)) (vf mg : Nat)
     (dv : Val) : Except RegErr Opt :=
   if key = [] then .error .noKey else
-  let rx : Rx := if rxi ≠ 0 then .cat rxi else match pvs with
-    | some l => .alts (l.map PV.fmt)
-    | none => .none
-  let o : Opt := { key := key, ty := ty, rl := rl, rx := rx, pvs := pvs, vf := vf, mg := mg }
-  match validate o dv with
+  match validate { key := key, ty := ty, rl := rl, rx := mkRx rxi pvs, pvs := pvs, vf := vf, mg := mg } dv with
   | .error e => .error (.badDefault e)
-  | .ok c => .ok { o with fallback := c }
+  | .ok c => .ok { key := key, ty := ty, rl := rl, rx := mkRx rxi pvs, pvs := pvs, vf := vf, mg := mg, fallback := c }
 
 /-- `options[option.Key] = option`. -/
 def insertOpt (o : Opt) : List Opt → List Opt
